@@ -221,13 +221,16 @@ fn gen_c19(tier: &str, rng: &mut Rng) -> Vec<Case> {
     for _ in 0..nn {
         // element k: (parent, open tag name); tokens hang below elements
         let parents: [i32; 13] = [-1, 0, 0, 2, 3, 3, 2, 6, 7, 6, 0, -1, 5];
-        let html = "<div id=e0><p id=e1>tk1</p><table id=e2><tr id=e3><td id=e4>tk4</td><th id=e5>tk5 <span id=e12>tk12</span></th></tr><tr id=e6><td id=e7>tk7 <em id=e8>tk8</em></td><td id=e9>tk9</td></tr></table><p id=e10>tk10</p></div><p id=e11>tk11</p>";
-        let toks: [(usize, &str); 9] = [(1, "tk1"), (4, "tk4"), (5, "tk5"), (12, "tk12"), (7, "tk7"), (8, "tk8"), (9, "tk9"), (10, "tk10"), (11, "tk11")];
+        let html = "<div id=e0><p id=e1>tk1</p><table id=e2><tr id=e3><td id=e4>tk4</td><th id=e5>tk5 <span id=e12>tk12</span> tk13</th></tr><tr id=e6><td id=e7>tk7 <em id=e8>tk8</em> tk14</td><td id=e9>tk9</td></tr></table><p id=e10>tk10</p></div><p id=e11>tk11</p>";
+        let toks: [(usize, &str); 11] = [(1, "tk1"), (4, "tk4"), (5, "tk5"), (12, "tk12"), (5, "tk13"), (7, "tk7"), (8, "tk8"), (7, "tk14"), (9, "tk9"), (10, "tk10"), (11, "tk11")];
+        // colours come from a small palette half of the time, so that nested elements often win
+        // the same colour (text after the inner element is still the outer element's)
+        let small = rng.chance(1, 2);
         let mut col: Vec<Option<u8>> = Vec::new();
         let mut sheet = String::new();
         for k in 0..13usize {
             if rng.chance(1, 2) {
-                let c = 16 + k as u8;
+                let c = if small { 16 + rng.below(2) as u8 } else { 16 + k as u8 };
                 col.push(Some(c));
                 let prop = "color";
                 sheet.push_str(&format!("#e{}{{{}:#0100{:02x}}}", k, prop, c));
@@ -728,6 +731,8 @@ fn print_sheet(rng: &mut Rng, rules: &[Rule], style: usize) -> String {
         if style > 0 && rng.chance(1, 4) {
             o.push_str(*rng.pick(&[
                 "@import url(x);",
+                "@import \"a\\\"b;c.css\";",
+                "@import 'it\\'s;.css' screen;",
                 "@media print { p { color: red; } }",
                 "@charset \"utf-8\";",
                 "@font-face { font-family: x; }",
@@ -769,7 +774,7 @@ fn print_sheet(rng: &mut Rng, rules: &[Rule], style: usize) -> String {
         for (k, (p, v, imp)) in r.decls.iter().enumerate() {
             o.push_str(&ws(rng));
             if style > 0 && rng.chance(1, 5) {
-                o.push_str(*rng.pick(&["frobnicate: 12px solid;", "background-image:url(data:image/png;base64,AAA=);", "x:(a;b);", "grid-area: [a;b] 1 / 2;", "width:calc(1px + (2px * 3));", "font: 12px/1.5 \"a;b}\", serif;", "-webkit-Foo:bar(1; 2px) 50% #Ab;", "font-family: \"Jim's Font\", serif;", "font-family: 'Say \"hi\" Font';", "quotes: \"'\" \"'\";"]));
+                o.push_str(*rng.pick(&["frobnicate: 12px solid;", "background-image:url(data:image/png;base64,AAA=);", "x:(a;b);", "grid-area: [a;b] 1 / 2;", "width:calc(1px + (2px * 3));", "font: 12px/1.5 \"a;b}\", serif;", "-webkit-Foo:bar(1; 2px) 50% #Ab;", "font-family: \"Jim's Font\", serif;", "font-family: 'Say \"hi\" Font';", "quotes: \"'\" \"'\";", "font-family: \"Foo \\\"Bar\\\"; x\", serif;", "content: 'it\\'s; here';", "content: \"a\\\\\";", "content: \"line\\\ncontinued; on\";"]));
                 o.push_str(&ws(rng));
             }
             if style > 0 && k == 0 && rng.chance(1, 6) {
